@@ -71,7 +71,16 @@ def check_text(case, stats):
     gh.parse(text, dflt, parser=used, stop=True)
     again = gh.parse(text, dflt, parser=used, stop=False)
     if again != real:
-        raise Violation(case, "collecting mode on a parser that was used in stop-at-first-error mode before gives %r, a fresh parser %r\n%s" % (again[1][:3], real[1][:3], text))
+        raise Violation(case, "collecting mode on a parser that was used in stop-at-first-error mode before gives %r, a fresh parser %r\n%s" % (again[1][:3] if again[0] != "ok" else "accepted", real[1][:3], text))
+    # ... and ONE matcher that has just been through a document every line of which is a faulty tag line, an unknown language header and a ragged
+    # table (whatever a matcher notes about rejected lines belongs to that document)
+    um = gh.TokenMatcher(dflt)
+    gh.parse("#language: xx-none\n" + "  @a b @c\n" * 40, matcher=um)
+    gh.parse("Feature: f\n Scenario: s\n  Given x\n   | a | b |\n   | c |\n" + "   @t u\n" * 30, matcher=um)
+    again_m = gh.parse(text, dflt, matcher=um)
+    if again_m != real:
+        fmt = lambda r_: r_[1][:3] if r_[0] != "ok" else "accepted"
+        raise Violation(case, "with a matcher that was used for rejected documents before the parser reports %r, with a fresh matcher %r\n%s" % (fmt(again_m), fmt(real), text))
     stop = gh.parse(text, dflt, stop=True)
     if stop[0] == "ok":
         raise Violation(case, "stop-at-first-error mode accepts a document the collecting mode rejects\n%s" % text)
